@@ -170,6 +170,12 @@ func runAccept(c *ctx) error {
 		return fmt.Errorf("rotation thread did not reach the gate")
 	}
 	a.menu(0, false)
+	// the impact collector stamps the current timeslot: let it run with the clock on the last
+	// slot of the window and exactly one past it
+	for _, tt := range []uint32{4031, 4032, 4033} {
+		s.Tick(tt)
+		time.Sleep(70 * time.Millisecond)
+	}
 	s.Tick(4033 + 400) // every slot up to the end of the window is acceptable now
 	a.menu(0, false)
 	gate.Release()
